@@ -6,7 +6,7 @@ PATCH=$(readlink -f "$1"); DEMO=$(readlink -f "$2"); DEST=$3; shift 3
 S=$(mktemp -d /var/tmp/seedconfirm-XXXXXX)
 trap 'rm -rf "$S"' EXIT
 rsync -a --exclude .git /repo/ "$S/repo/"
-cp "$DEMO" "$S/repo/$DEST"
+mkdir -p "$(dirname "$S/repo/$DEST")"; cp "$DEMO" "$S/repo/$DEST"
 export GOFLAGS=-mod=mod GOPROXY=off GOSUMDB=off GOTOOLCHAIN=local
 cd "$S/repo"
 go test -vet=off -count=1 -overlay /verif/overlay/overlay.json "$@" > "$S/without.txt" 2>&1; RC0=$?
